@@ -209,9 +209,10 @@ def run(ctx, progs):
                     any(is_call(x, g) and unref(x[2][0])[:2] == ('param', 2) for x in subterms(unref(t[2][1])))
                 neg_ok = False
                 ok_ok = False
-                for pos, rt in b.return_terms():
-                    facts = b.facts_at(pos)
-                    rd = deep_strip(rt)
+                from .. import outcomes as _oc
+                for o_ in _oc.outcomes(prog, eff, b):
+                    facts = _oc.facts_of(b, o_, (prog, eff))
+                    rd = deep_strip(o_[1])
                     if rd[0] == 'agg' and rd[2] == 'Err':
                         neg_ok = any(r[0] == 'cmp' and r[1] == 'Lt' and unref(r[2]) == t and r[3] == ('const', 0) for r in facts) and any(is_call(x, "last_os_error") for x in subterms(rd))
                     elif rd[0] == 'agg' and rd[2] == 'Ok':
